@@ -6,9 +6,10 @@
    sequences accepted from the initial state (all interleavings of client and worker steps,
    all answers of select/recv, any number of in-flight requests).
    PARTIAL by nature (DESIGN 5 C12, 8): what the kernel, epoll, OpenSSL and paramiko do when a
-   handle is closed enters as the oracle hypotheses O1-O3 stated at the top of Model/Close.v;
-   tools/props/c12.py validates them on real Unix/TLS/SSH connections. *)
-From NC Require Import Model.Base Model.Close Spec.CloseSpec Proofs.CloseProofs Proofs.CloseThms.
+   handle is closed enters as the oracle hypotheses O1-O5 stated at the top of Model/Close.v
+   (built into [step]: no Axiom, no Parameter); tools/props/c12.py validates them on real
+   Unix/TLS/SSH connections. *)
+From NC Require Import Model.Base Model.Close Spec.CloseSpec Proofs.CloseProofs Proofs.CloseThms Proofs.CloseSsh.
 
 (* after close() returned to a client thread the session reports itself disconnected *)
 Theorem C12_disconnected : forall t ls s,
@@ -29,7 +30,7 @@ Theorem C12_worker_exits : forall t ls s,
 Proof. exact c12_worker_exited. Qed.
 Print Assumptions C12_worker_exits.
 
-(* Bound (TLS and Unix sockets; for SSH see C12_ssh_bound_partial below): once the closing flag
+(* Bound (TLS and Unix sockets; for SSH see C12_ssh_bound below): once the closing flag
    is set and the handle closed, the worker begins at most ONE more select (one more loop
    iteration) ... *)
 Theorem C12_worker_exits_one_iteration : forall t ls s,
@@ -90,23 +91,81 @@ Theorem C12_close_session : forall t ls s,
 Proof. exact c12_close_session. Qed.
 Print Assumptions C12_close_session.
 
-(* PARTIAL for SSH: paramiko's channel still returns the data it had buffered when the transport
-   was closed (observed, tools/props/c12.py path race_read), so hypothesis O1 is not assumed for
-   SSH and no iteration bound is proved there: the worker drains that finite buffer (one recv of at
-   most 4096 octets per iteration) and then ends.  Missing lemma: a model of the channel buffer
-   (chunks received before the close) and the bound "1 + chunks buffered at close".
-   What IS proved for SSH as for the others: when close() has returned the worker has ended
-   (C12_worker_exits, by the join) and never runs again (C12_no_late_callback).
-   Witness that the one-iteration bound is false without O1: *)
-Definition ex_ssh_buffered : list label :=
-  [OpenHandle; SetConn; Start; SelectBegin; Select true; ReadBegin; Read (RData 1); Dispatch None; HelloOk;
-   CloseCall; CStep Client SetClosing true; CStep Client ClearConn true; CStep Client CloseHandle true;
+(* ---------------- SSH: the worker drains the channel buffer ---------------- *)
+(* paramiko's channel still returns the data it had buffered when the transport was closed
+   (observed, tools/props/c12.py paths race_read and ssh_buffered), so O1 does not hold for SSH.
+   The buffer is explicit in the model instead: [chan s] is the list of chunks (one chunk = what
+   one recv(BUF_SIZE) returns) held by the channel, [Arrive n] appends one while the transport
+   is open (O4), a read that returns data removes the oldest one and a read returns b'' only
+   when the list is empty (O5).
+
+   Iterations after the closing flag is set: in ANY continuation [ls] (all interleavings, all
+   answers of select/recv the model allows) of ANY reachable SSH state with the flag set, the
+   worker begins at most 1 + (chunks buffered now) + (chunks that still arrive) selects ... *)
+Theorem C12_ssh_bound_from_closing : forall ls0 s ls s',
+  run_of Ssh ls0 s -> closing s = true -> accepts s ls = Some s' ->
+  (count is_select_begin ls <= 1 + length (chan s) + count is_arrive ls)%nat.
+Proof. exact c12_ssh_bound_from_closing. Qed.
+Print Assumptions C12_ssh_bound_from_closing.
+
+(* ... and nothing arrives once close() has closed the transport, so for EVERY list of chunks
+   buffered at that time the worker begins at most 1 + length buffered further iterations. *)
+Theorem C12_ssh_bound : forall buffered ls0 s ls s',
+  run_of Ssh ls0 s -> closing s = true -> socket_open s = false -> chan s = buffered ->
+  accepts s ls = Some s' ->
+  (count is_select_begin ls <= 1 + length buffered)%nat.
+Proof. exact c12_ssh_bound. Qed.
+Print Assumptions C12_ssh_bound.
+
+(* Termination: in any continuation of a locally closed SSH session the worker performs at most
+   smeasure s = sfuel (worker s) + sum over the buffered chunks c of (4 + 8 * c) steps, dispatches
+   and nested close() calls from callbacks included (c = messages completed by the chunk) ... *)
+Theorem C12_ssh_worker_terminates : forall ls0 s ls s',
+  run_of Ssh ls0 s -> closing s = true -> socket_open s = false ->
+  accepts s ls = Some s' ->
+  (count is_worker_label ls + smeasure s' <= smeasure s)%nat.
+Proof. exact c12_ssh_worker_terminates. Qed.
+Print Assumptions C12_ssh_worker_terminates.
+
+(* ... and close() returns: a client thread inside close() (any statement of it) can always be
+   brought to the return of close() by steps of that thread and of the worker alone (no step of
+   the peer, of paramiko or of another client is needed), and then the worker has ended. *)
+Theorem C12_ssh_close_returns : forall ls0 s rest,
+  run_of Ssh ls0 s -> cprog s = Some rest ->
+  exists ls s', accepts s ls = Some s' /\ In (CloseRet Client) ls /\
+    (forall l, In l ls -> is_worker_label l = true \/ l = CloseRet Client \/ exists c d, l = CStep Client c d) /\
+    client_closed s' = true /\ not_alive (worker s') = true /\ connected s' = false /\ socket_open s' = false.
+Proof. exact c12_ssh_close_returns. Qed.
+Print Assumptions C12_ssh_close_returns.
+
+(* Non-vacuity: the worker sits in a listener callback while three chunks (completing 1, 0 and 2
+   messages) arrive; close() closes the transport; the worker then begins exactly 1 + 3 iterations
+   (the bound is met) and 27 steps in all, within smeasure = 16 + 8 + (4+8) + 4 + (4+16) = 60.
+   The same label sequence is not a run of TLS (no channel buffer there; O1 instead). *)
+Definition ex_ssh_prefix : list label :=
+  [OpenHandle; SetConn; Start; SelectBegin; Select true; ReadBegin; Arrive 1; Read (RData 1); Dispatch None; HelloOk;
+   SelectBegin; Select true; ReadBegin; Arrive 1; Read (RData 1);
+   Arrive 1; Arrive 0; Arrive 2;
+   CloseCall; CStep Client SetClosing true; CStep Client ClearConn true; CStep Client CloseHandle true].
+Definition ex_ssh_drain : list label :=
+  [Dispatch None;
    SelectBegin; Select true; ReadBegin; Read (RData 1); Dispatch None;
-   SelectBegin; Select true; ReadBegin; Read (RData 1); Dispatch None].
-Example C12_ssh_bound_partial :
-  exists s, run_of Ssh ex_ssh_buffered s /\ sel_after_close s = 2%N /\ accepts (init Tls) ex_ssh_buffered = None.
+   SelectBegin; Select true; ReadBegin; Read (RData 0);
+   SelectBegin; Select true; ReadBegin; Read (RData 2); Dispatch None; Dispatch None;
+   SelectBegin; Select true; ReadBegin; Read REof; ChkClosing true; ErrBroadcast; Exit;
+   CStep Client JoinW true; CStep Client ChanDrop true; CStep Client ClearConn true; CloseRet Client].
+Example C12_ex_ssh_bound :
+  let s := match accepts (init Ssh) ex_ssh_prefix with Some s => s | None => init Ssh end in
+  run_of Ssh ex_ssh_prefix s /\ closing s = true /\ socket_open s = false /\ chan s = [1; 0; 2]%nat /\
+  cprog s = Some [JoinW; ChanDrop; ClearConn] /\ smeasure s = 60%nat /\
+  (exists s', accepts s ex_ssh_drain = Some s' /\ worker s' = WExited /\ client_closed s' = true /\
+              sel_after_close s' = 4%N /\ chan s' = []) /\
+  count is_select_begin ex_ssh_drain = 4%nat /\ count is_worker_label ex_ssh_drain = 23%nat /\
+  step s (Arrive 1) = None /\ step s (Read REof) = None /\
+  accepts (init Tls) ex_ssh_prefix = None.
 Proof.
-  exists (match accepts (init Ssh) ex_ssh_buffered with Some s => s | None => init Ssh end).
+  intro s; repeat match goal with |- _ /\ _ => split end; try (vm_compute; reflexivity).
+  exists (match accepts (init Ssh) (ex_ssh_prefix ++ ex_ssh_drain) with Some s => s | None => init Ssh end).
   repeat match goal with |- _ /\ _ => split end; vm_compute; reflexivity.
 Qed.
 
@@ -137,9 +196,9 @@ Proof. unfold closed_returned; ex. Qed.
    the peer then closes (EOF with the closing flag not yet set => error path: the worker closes
    the session itself) while the client runs close() in the finally clause. *)
 Definition ex_ssh_cs : list label :=
-  [OpenHandle; SetConn; Start; SelectBegin; Select true; ReadBegin; Read (RData 1); Dispatch None; HelloOk;
+  [OpenHandle; SetConn; Start; SelectBegin; Select true; Arrive 1; ReadBegin; Read (RData 1); Dispatch None; HelloOk;
    Submit 1 true; MgrExit false; CsBegin; Submit 9 true;
-   SelectBegin; Select true; ReadBegin; Read (RData 1); Dispatch (Some 9);
+   SelectBegin; Arrive 1; Select true; ReadBegin; Read (RData 1); Dispatch (Some 9);
    SelectBegin; Select true; ReadBegin; Read REof; ChkClosing false; ErrBroadcast; WorkerCloseCall;
    CStep Worker SetClosing true; CStep Worker ClearConn true;
    CloseCall; CStep Client SetClosing true; CStep Client ClearConn true;
